@@ -59,9 +59,33 @@ pub fn entries(base: &MpcCase, corrupt: usize, mac_bits: &[u32]) -> Result<Vec<E
         whitelist,
         ot_group: false,
     };
+    // pairs of positions: two alterations in one message that would cancel in an XOR-aggregated check
+    let pairs = |pos: &[usize]| -> Vec<(usize, usize)> {
+        let mut v = vec![];
+        for i in 0..pos.len() {
+            for j in i + 1..pos.len() {
+                if pos.len() <= 4 || j == i + 1 || (i == 0 && j == pos.len() - 1) {
+                    v.push((pos[i], pos[j]));
+                }
+            }
+        }
+        v
+    };
     for m in tmpl.res.msgs.iter().filter(|m| m.from == corrupt) {
         let k = m.sender_idx;
         let Some(v) = decode(m) else { continue };
+        match m.label.as_str() {
+            "wire shares" | "output wire shares" | "lambda" if m.label != "wire shares" && (m.to == corrupt || !base.p_out.contains(&m.to)) => {}
+            _ => {}
+        }
+        if matches!(m.label.as_str(), "wire shares" | "output wire shares" | "lambda") && (m.label == "wire shares" || base.p_out.contains(&m.to)) {
+            let w = if m.label == "wire shares" { wl(&["wire shares"]) } else { wl(&["output wire shares", "lambda"]) };
+            for (a, b) in pairs(&some_positions(&v)) {
+                let both = |field: usize, tm: TreeMut| MsgMut::Multi(vec![(vec![a, 0, field], tm.clone()), (vec![b, 0, field], tm)]);
+                out.push(mk(&format!("{}: value bit flipped at two registers", m.label), k, both(0, TreeMut::FlipBit(0)), vec![m.to], w.clone()));
+                out.push(mk(&format!("{}: same MAC/label bit flipped at two registers", m.label), k, both(1, TreeMut::FlipBit(mac_bits[0])), vec![m.to], w.clone()));
+            }
+        }
         match m.label.as_str() {
             "wire shares" => {
                 for w in some_positions(&v) {
